@@ -9,6 +9,7 @@ package schedsim
 
 import (
 	"fmt"
+	mgmt "github.com/named-data/ndnd/std/ndn/mgmt_2022"
 	"runtime"
 	"sort"
 	"strings"
@@ -32,7 +33,7 @@ type Config struct {
 	Fib   string `json:"fib"`
 	M     int    `json:"m"`
 	Tasks int    `json:"tasks"`
-	Sched []int  `json:"sched"` // which runnable task is released at each scheduling point (modulo), then round-robin
+	Sched []int  `json:"sched"`           // which runnable task is released at each scheduling point (modulo), then round-robin
 	Pre   int    `json:"pre,omitempty"`   // prefixes /bg/0../bg/Pre-1, each with a route on every face, registered before the tasks start (a RIB of realistic size: one face's clean-up is a FIB batch of dozens of changes)
 	Readv bool   `json:"readv,omitempty"` // the real NLSR readvertiser is attached to the RIB (it is called back inside RIB operations)
 }
@@ -115,7 +116,7 @@ func (Engine) Generate(prop string, r *kit.Rand, tier string) *kit.Scenario[Conf
 				o.Name = fmt.Sprintf("/bg/%d", r.Intn(c.Pre))
 			}
 		case 8:
-			o.Op = "list"
+			o.Op = kit.Pick(r, []string{"list", "list", "mlist", "mlist", "mslist"})
 		case 9:
 			o.Op, o.Name, o.Face, o.Cost = "mreg", kit.Pick(r, ribNames), uint64(r.Range(1, 3)), uint64(r.Intn(3))
 			o.Origin = kit.Pick(r, origins)
@@ -383,6 +384,23 @@ func (s *mstate) strategy(n string) string {
 	return st
 }
 
+// stratList: the strategy table as strategy-choice/list shows it (the root's default included).
+func (s *mstate) stratList() string {
+	ps := []string{}
+	root := false
+	for p, v := range s.strat {
+		ps = append(ps, p+"="+v)
+		if p == "/" {
+			root = true
+		}
+	}
+	if !root {
+		ps = append(ps, "/=best-route")
+	}
+	sort.Strings(ps)
+	return strings.Join(ps, " ")
+}
+
 func (s *mstate) list() string {
 	exp := s.expectedFib()
 	ps := []string{}
@@ -463,8 +481,10 @@ var model = porcupine.Model{
 			return ps.st.lookup(o.Name) == output.(string), state
 		case "strat":
 			return ps.st.strategy(o.Name) == output.(string), state
-		case "list":
+		case "list", "mlist":
 			return ps.st.list() == output.(string), state
+		case "mslist":
+			return ps.st.stratList() == output.(string), state
 		case "mreg":
 			// a management registration naming a face: accepted iff the face exists at that moment
 			if output.(string) != "ok" {
@@ -605,6 +625,7 @@ func (e Engine) runOnce(t *testing.T, ctx *kit.Ctx, sc *kit.Scenario[Config, Op]
 	table.VerifResetGlobals()
 	table.CreateFIBTable(c.Fib)
 	face.VerifResetFaceTable()
+	fibListFn, stratListFn := fwmgmt.VerifDatasetHandlers()
 	drainReadv := func() [][]byte { return nil }
 	if c.Readv {
 		rv, drain := fwmgmt.VerifNlsrReadvertiser()
@@ -766,19 +787,64 @@ func (e Engine) runOnce(t *testing.T, ctx *kit.Ctx, sc *kit.Scenario[Config, Op]
 					}
 					ops = append(ops, porcupine.Operation{ClientId: ti, Input: &Op{Task: o.Task, Op: "strat", Name: o.Name}, Call: int64(call2), Output: sn, Return: int64(ret2)})
 					continue
-				case "list":
-					xs := []string{}
-					for _, e := range fib.GetAllFIBEntries() {
-						nh := map[uint64]uint64{}
-						for _, h := range e.GetNextHops() {
-							nh[h.Nexthop] = h.Cost
+				case "mlist":
+					// fib/list as the management thread serves it: the real handler, dataset decoded
+					out = "undecodable"
+					if ds, err := mgmt.ParseFibStatus(enc.NewBufferReader(fibListFn()), true); err == nil {
+						xs := []string{}
+						for _, e := range ds.Entries {
+							nh := map[uint64]uint64{}
+							for _, h := range e.NextHopRecords {
+								nh[h.FaceId] = h.Cost
+							}
+							if len(nh) > 0 {
+								xs = append(xs, nstr(e.Name)+"="+nhStr(nh))
+							}
 						}
-						if len(nh) > 0 {
-							xs = append(xs, nstr(e.Name())+"="+nhStr(nh))
-						}
+						sort.Strings(xs)
+						out = strings.Join(xs, " ")
 					}
-					sort.Strings(xs)
-					out = strings.Join(xs, " ")
+				case "mslist":
+					out = "undecodable"
+					if ds, err := mgmt.ParseStrategyChoiceMsg(enc.NewBufferReader(stratListFn()), true); err == nil {
+						xs := []string{}
+						for _, e := range ds.StrategyChoices {
+							sn := "?"
+							if e.Strategy != nil && len(e.Strategy.Name) >= 4 {
+								sn = e.Strategy.Name[3].String()
+							}
+							xs = append(xs, nstr(e.Name)+"="+sn)
+						}
+						sort.Strings(xs)
+						out = strings.Join(xs, " ")
+					}
+				case "list":
+					render := func(es []table.FibStrategyEntry) string {
+						xs := []string{}
+						for _, e := range es {
+							nh := map[uint64]uint64{}
+							for _, h := range e.GetNextHops() {
+								nh[h.Nexthop] = h.Cost
+							}
+							if len(nh) > 0 {
+								xs = append(xs, nstr(e.Name())+"="+nhStr(nh))
+							}
+						}
+						sort.Strings(xs)
+						return strings.Join(xs, " ")
+					}
+					entries := fib.GetAllFIBEntries()
+					atReturn := render(entries)
+					ret := s.counter
+					s.counter++
+					// the management thread reads the entries' next hops after the listing call returned (fib/list,
+					// status): what was returned must not change under it
+					table.VerifYield("list.use-result")
+					if after := render(entries); after != atReturn && mutated == "" {
+						mutated = fmt.Sprintf("listing returned [%s]; after other threads ran, the same returned entries read [%s]", atReturn, after)
+					}
+					ops = append(ops, porcupine.Operation{ClientId: ti, Input: o, Call: int64(call), Output: atReturn, Return: int64(ret)})
+					continue
 				}
 				ret := s.counter
 				s.counter++
@@ -1167,7 +1233,7 @@ func linKey(ops []porcupine.Operation) string {
 	}
 	isRead := func(o porcupine.Operation) bool {
 		k := o.Input.(*Op).Op
-		return k == "lookup" || k == "list" || k == "strat"
+		return k == "lookup" || k == "list" || k == "strat" || k == "mlist" || k == "mslist"
 	}
 	var rest []porcupine.Operation
 	for _, o := range ops {
